@@ -115,7 +115,7 @@ $(A)/tools/%: $(A)/tools/%.o $(A)/tools/util_common.o $(A)/libzck.a
 tools: $(A)/tools/zck $(A)/tools/unzck $(A)/tools/zck_read_header $(A)/tools/zck_delta_size $(A)/tools/zck_gen_zdict $(A)/tools/zckdl
 
 # ---------------------------------------------------------------- fault-injection builds (C12)
-WRAP := -Wl,--wrap=read,--wrap=write,--wrap=lseek,--wrap=ftruncate
+WRAP := -Wl,--wrap=read,--wrap=write,--wrap=lseek,--wrap=ftruncate,--wrap=pread,--wrap=pread64,--wrap=pwrite,--wrap=pwrite64,--wrap=readv,--wrap=writev,--wrap=copy_file_range,--wrap=sendfile,--wrap=sendfile64,--wrap=lseek64,--wrap=ftruncate64
 $(A)/iofault.o: lib/iofault.c
 	@mkdir -p $(dir $@)
 	$(CC) -O1 -g $(SAN) -c $< -o $@
